@@ -224,7 +224,7 @@ Proof. intros. cbn. reflexivity. Qed.
 
 Lemma answered1 : forall nc fu cmax f, f_id f = 0 -> is_unsolicited (f_typ f) = false ->
   run_from (lts_cfg nc fu cmax) (S1 cmax) [RCheck; RFrame f HBNone]
-  = S2 (PNegotiating NGsv (Some c1)) cmax f (f_typ f =? 4).
+  = S2 (PNegotiating NGsv (Some c1)) cmax f false.
 Proof.
   intros nc fu cmax f I U. destruct (unsol_cases _ U) as [U1 [U2 U3]].
   destruct f as [fv ft fi fl fg fo]. cbn [f_id f_typ] in *. subst fi.
@@ -266,7 +266,7 @@ Proof. intros. cbn. reflexivity. Qed.
 
 Lemma answered2 : forall nc fu cmax ver f sc g, f_id g = 1 -> is_unsolicited (f_typ g) = false ->
   run_from (lts_cfg nc fu cmax) (S3 ver f sc) [RCheck; RFrame g HBNone]
-  = S4 (PNegotiating NSpv (Some c2)) ver f g (if f_typ g =? 4 then true else sc).
+  = S4 (PNegotiating NSpv (Some c2)) ver f g sc.
 Proof.
   intros nc fu cmax ver f sc g I U. destruct (unsol_cases _ U) as [U1 [U2 U3]].
   destruct g as [fv ft fi fl fg fo]. cbn [f_id f_typ] in *. subst fi.
@@ -423,17 +423,23 @@ Proof.
   intros. unfold rest2. rewrite (conn_ready_returned _ _ _ H). rewrite H. reflexivity.
 Qed.
 Lemma rest1_failed : forall nc cfg r2 typ kid s r, phase s = PReturned r -> rest1 nc cfg r2 typ kid s = s.
-Proof. intros. unfold rest1. rewrite H. cbn [run_from fold_left]. apply (rest2_failed _ _ _ _ _ _ H). Qed.
+Proof. intros. unfold rest1. rewrite H. change (run_from cfg s []) with s. apply (rest2_failed _ _ _ _ _ _ H). Qed.
+
+Lemma run_from_cons : forall cfg s e l, run_from cfg s (e :: l) = run_from cfg (run_from cfg s [e]) l.
+Proof. reflexivity. Qed.
+Lemma conn_ready_done : forall cfg s, phase s = PNegotiating NDone None ->
+  run_from cfg s [ConnReady] = set_phase PReady (set_ready true s).
+Proof. intros. cbn [run_from fold_left step]. unfold step_conn_ready. rewrite H. reflexivity. Qed.
 
 Lemma rest2_done : forall nc cfg typ kid s, phase s = PNegotiating NDone None ->
   rest2 nc cfg typ kid s = run_from cfg s (ConnReady :: seg_later nc typ kid).
 Proof.
-  intros. unfold rest2. cbn [run_from fold_left step]. unfold step_conn_ready. rewrite H.
-  reflexivity.
+  intros. unfold rest2. rewrite (run_from_cons cfg s ConnReady (seg_later nc typ kid)). rewrite (conn_ready_done cfg _ H).
+  cbn [phase set_phase]. reflexivity.
 Qed.
 Lemma rest1_done : forall nc cfg r2 typ kid s, phase s = PNegotiating NDone None ->
   rest1 nc cfg r2 typ kid s = run_from cfg s (ConnReady :: seg_later nc typ kid).
-Proof. intros. unfold rest1. rewrite H. cbn [run_from fold_left]. apply rest2_done. assumption. Qed.
+Proof. intros. unfold rest1. rewrite H. change (run_from cfg s []) with s. apply rest2_done. assumption. Qed.
 
 Lemma rest1_spv : forall nc cfg r2 typ kid v f sc,
   rest1 nc cfg r2 typ kid (S2 (PNegotiating NSpv None) v f sc)
@@ -469,27 +475,27 @@ Proof.
     pose proof (gsv_corr _ _ RF1) as GC.
     change (seg_answer c1 (Some f)) with ([RCheck; RFrame f HBNone] ++ [NegStep]).
     rewrite run_from_app. rewrite answered1 by assumption.
-    change (run_from (lts_cfg nc fu cmax) (S2 (PNegotiating NGsv (Some c1)) cmax f (f_typ f =? 4)) [NegStep])
-      with (step_neg_step (S2 (PNegotiating NGsv (Some c1)) cmax f (f_typ f =? 4))).
+    change (run_from (lts_cfg nc fu cmax) (S2 (PNegotiating NGsv (Some c1)) cmax f false) [NegStep])
+      with (step_neg_step (S2 (PNegotiating NGsv (Some c1)) cmax f false)).
     destruct (Ng.get_supported r1) as [[cur mx]|] eqn:GS.
     + rewrite (negstep1_ok _ _ _ _ _ GC).
-      set (v := if mx <? cmax then mx else cmax).
+      unfold Ng.version in *. remember (if mx <? cmax then mx else cmax) as v eqn:Hv.
       destruct (cur =? v) eqn:CV.
       * (* the reader already uses v: no switch *)
         rewrite rest1_done by reflexivity.
-        destruct (later_S2 nc fu cmax v f (f_typ f =? 4) typ kid) as [L1 [L2 L3]].
+        destruct (later_S2 nc fu cmax v f false typ kid) as [L1 [L2 L3]].
         cbn [fst snd Ng.n_frames Ng.n_outcome Ng.n_version app Ng.write_later map].
         unfold lts_outcome. rewrite L1, L2, L3. cbn [map].
         rewrite view_ack, view_req by assumption. rewrite (view_gsv nc cmax). repeat split.
       * (* the switch *)
-        rewrite rest1_spv.
+        rewrite rest1_spv. consts.
         change (Ng.stamp nc v (Ng.new_message nc 47 [v])) with (Ng.stamp nc v (Ng.new_message nc Ng.MsgSetProtocolVersion [v])).
         destruct (reply_frame false 57 1 r2) as [g|] eqn:RF2.
         -- destruct (reply_props false 57 1 r2 g X2 (eq_refl : is_unsolicited 57 = false) RF2) as [I2 U2].
            pose proof (spv_corr _ _ RF2) as SC.
            change (seg_answer c2 (Some g)) with ([RCheck; RFrame g HBNone] ++ [NegStep]).
            rewrite run_from_app. rewrite answered2 by assumption.
-           set (sc := if f_typ g =? 4 then true else f_typ f =? 4).
+           set (sc := false).
            change (run_from (lts_cfg nc fu cmax) (S4 (PNegotiating NSpv (Some c2)) v f g sc) [NegStep])
              with (step_neg_step (S4 (PNegotiating NSpv (Some c2)) v f g sc)).
            rewrite negstep2, SC.
@@ -506,7 +512,7 @@ Proof.
               rewrite (view_gsv nc cmax), (view_spv nc v v). repeat split.
         -- (* no reply to the switch *)
            apply reply_none in RF2. subst r2.
-           destruct (timeout2 (lts_cfg nc fu cmax) v f (f_typ f =? 4)) as [Q1 [Q2 Q3]].
+           destruct (timeout2 (lts_cfg nc fu cmax) v f false) as [Q1 [Q2 Q3]].
            change (seg_answer c2 None) with [RCheck; Cancel c2; NegStep].
            rewrite (rest2_failed _ _ _ _ _ _ Q1).
            cbn [fst snd Ng.n_frames Ng.n_outcome Ng.n_version app map Ng.set_accepted].
@@ -527,3 +533,47 @@ Proof.
     unfold lts_outcome. rewrite Q1, Q2, Q3. cbn [map].
     rewrite (view_gsv nc cmax). repeat split.
 Qed.
+
+(* ---- 6. the consistency theorem -------------------------------------------------------------- *)
+(* For every C06 configuration nc (pre-stamping / writer variant), every setting fu of the
+   unsolicited filter, every client maximum, every pair of expressible reader reactions, every
+   ordinary message type typ and keep-alive id kid: the LTS run through the canonical schedule
+   writes exactly the frames [session] computes (negotiation frames, then — iff Connect proceeds —
+   the acknowledgement and the request with the stamps [Ng.stamp] gives them), Connect proceeds
+   or fails as [negotiate] says, and c.version ends up as [n_version]. *)
+Theorem negotiate_agrees_with_lts : forall nc fu cmax r1 r2 typ kid,
+  expressible r1 -> expressible r2 -> Ng.is_neg_type typ = false ->
+  agree nc fu cmax r1 r2 typ kid.
+Proof.
+  intros. destruct (N.le_gt_cases cmax 1).
+  - apply agree_low; assumption.
+  - apply agree_high; assumption.
+Qed.
+
+(* the two reply decoders agree on every reaction that is a reply (used above; of independent
+   interest: Model.gsv_outcome / spv_ok vs Negotiate.get_supported / set_accepted) *)
+Theorem reply_decoders_agree : forall r f g,
+  (reply_frame true T_GetSupportedVersionResponse 0 r = Some f -> gsv_outcome f = Ng.get_supported r) /\
+  (reply_frame false T_SetProtocolVersionResponse 1 r = Some g -> spv_ok g = Ng.set_accepted r).
+Proof. intros. split; [apply gsv_corr | apply spv_corr]. Qed.
+
+(* non-vacuity: client 1.1; reader at 1.0.1 able to do 1.1 (bytes 32, 64); switch accepted; C06's
+   configuration of the code before fix e7ea34f (prestamp, writer does not override): both models
+   show defect F5 — the acknowledgement carries 1.1, the request 1.0.1 *)
+Example canon_example :
+  let cfg := lts_cfg Ng.cfg_today true 2 in
+  let evs := canon Ng.cfg_today cfg (Ng.Resp 32 64 0) (Ng.Resp 0 0 0) 2 777 in
+  evs = [ConnStart; ConnFirst ren HBNone;
+         NegSubmit c1; WDefault; WAccept c1; WWriteHdr; WWritePay;
+         RCheck; RFrame (mkFrame 2 56 0 10 11 (IVer 1 2 0)) HBNone; NegStep;
+         NegSubmit c2; WDefault; WAccept c2; WWriteHdr; WWritePay;
+         RCheck; RFrame (mkFrame 2 57 1 8 11 (IStatus 0)) HBNone; NegStep;
+         ConnReady;
+         RCheck; RFrame (mkFrame 1 62 777 0 0 IOpaque) HBNone; WTakeAck; WWriteHdr;
+         Submit c3 (mkReq 2 0 0 0 1 true true); PassGate c3; WDefault; WAccept c3; WWriteHdr]
+  /\ map view_o (out (run cfg evs)) = [(2, 46, 0, 0); (2, 47, 1, lit_tag 2); (2, 72, 0, 0); (1, 2, 0, 0)]
+  /\ map view_m (Ng.n_frames (fst (Ng.session Ng.cfg_today 2 (Ng.Resp 32 64 0) (Ng.Resp 0 0 0) [Ng.Ack; Ng.Request 2 []]))
+                 ++ snd (Ng.session Ng.cfg_today 2 (Ng.Resp 32 64 0) (Ng.Resp 0 0 0) [Ng.Ack; Ng.Request 2 []]))
+      = [(2, 46, 0, 0); (2, 47, 1, lit_tag 2); (2, 72, 0, 0); (1, 2, 0, 0)]
+  /\ phase (run cfg evs) = PReady /\ version (run cfg evs) = 2.
+Proof. vm_compute. repeat split. Qed.
